@@ -157,11 +157,12 @@ def trunc(ctx, target):
 ZONEPOOL = ["Europe/Berlin", "America/New_York", "Asia/Tokyo", "Etc/GMT+1", "Etc/GMT+10", "Etc/GMT+11", "UTC",
             "America/Argentina/ComodRivadavia", "America/North_Dakota/New_Salem", "Etc/GMT", "Etc/GMT-1", "Asia/Kolkata"]
 ALPH = "ABCDEFGHIJKLMNOPQRSTUVWXYZ0123456789"
+HIGH = "\u00e4\u00f6\u00e9\u00df\u03a9\u4e2d"
 
 
 def _gen_map(rnd, n):
     keys = set()
-    style = rnd.choice(("iata", "mixed", "prefixy", "long"))
+    style = rnd.choice(("iata", "mixed", "prefixy", "long", "highbit"))
     while len(keys) < n:
         if style == "iata":
             k = "".join(rnd.choice(ALPH[:26]) for _ in range(3))
@@ -176,6 +177,9 @@ def _gen_map(rnd, n):
                 k = b[:-1]
             else:
                 k = b[:-1] + rnd.choice(ALPH)
+        elif style == "highbit":
+            # bytes >= 0x80 (UTF-8 letters) among ASCII: names are sorted and searched bytewise
+            k = "".join(rnd.choice(ALPH + HIGH * 4) for _ in range(rnd.choice((1, 2, 3, 4, 5, 8))))
         else:
             k = "".join(rnd.choice(ALPH) for _ in range(rnd.choice((1, 2, 3, 4, 4, 5, 7, 8, 12))))
         if k:
@@ -186,7 +190,7 @@ def _gen_map(rnd, n):
 
 def _compile_map(ctx, src, d, name):
     sp = os.path.join(d, name + ".tzmap")
-    with open(sp, "w") as fh:
+    with open(sp, "w", encoding="utf-8") as fh:
         for k, z in src:
             fh.write("%s\t%s\n" % (k, z))
     out = os.path.join(d, name + ".tzmcc")
